@@ -303,7 +303,15 @@ def check_search(m, f, schema, res_wl, res_bound):
                 guards = [f.nodes[a]['cond'] for a in f.ancestors(n['i']) if a in s.scanbody and f.nodes[a]['k'] == 'IfStmt' and
                           f.nodes[a].get('cond', -1) >= 0]
                 for a0 in guards:
-                    for st in subterms(s.T(a0)):
+                    gt0 = s.T(a0)
+                    # ... or that reads one of the arrays the search itself fills (distance / predecessor / mark) together with
+                    # a property of the edge: "this edge cannot matter because the neighbour is already in the tree"
+                    arrs = [st for st in subterms(gt0) if st[0] == 'idx' and st[1][0] == 'var' and st[1][1] in getattr(s, 'arrays', {})]
+                    others = [st for st in subterms(gt0) if st[0] == 'var' and s.u.decl(st[1])['dk'] == 'Var' and
+                              st[1] != s.scan.get('loopvar') and st[1] not in getattr(s, 'arrays', {})]
+                    if arrs and others and skipped is None:
+                        skipped = (n, others[0], a0)
+                    for st in subterms(gt0):
                         if st[0] == 'var' and s.u.decl(st[1])['dk'] == 'Var' and st[1] != s.scan.get('loopvar'):
                             writes = [d for d in var_defs(f, st[1]) if d[0] in s.body]
                             if writes and not (len(var_defs(f, st[1])) == 1 and var_defs(f, st[1])[0][0] in s.scanbody):
@@ -334,6 +342,18 @@ def check_search(m, f, schema, res_wl, res_bound):
     atoms = s.guard_atoms(ins['i'], s.scanbody | set(f.descendants(s.scan['body'])))
     marker = None
     verdict = None
+    extra_entry = None
+    if schema == 'S-LC':
+        # the relaxation is entered through the strict improvement test only: a disjunct beside it (`unreached || cand < dist[v]`)
+        # lets a vertex in again without an improvement - the +infinity that marks "not reached" is also a legitimate distance
+        for a_ in f.ancestors(ins['i']):
+            an = f.nodes[a_]
+            if a_ not in s.scanbody:
+                break
+            if an['k'] == 'IfStmt' and an.get('cond', -1) >= 0 and ins['i'] in f.descendants(an.get('then', -1)):
+                ct = strip_conv(resolve(s, strip_conv(s.T(an['cond']))))
+                if ct[0] == 'bin' and ct[1] == '||':
+                    extra_entry = (an['cond'], ct)
     for t, pol, dep in atoms:
         tt_ = strip_conv(t)
         form = None
@@ -461,6 +481,13 @@ def check_search(m, f, schema, res_wl, res_bound):
     if verdict is not None and verdict[0] == 'wl-only':
         return s
     if verdict is None or (verdict[0] != 'holds' and schema != 'S-BFS-ALL'):
+        return s
+    if extra_entry is not None and verdict is not None and verdict[0] == 'holds':
+        for res in (res_wl, res_bound):
+            res.sites += 1
+            fail(res, 'insert-once', extra_entry[0], 'the relaxation is entered when `%s`, i.e. also without a strict improvement of the '
+                 'distance: a vertex whose distance legitimately equals the value tested (a total of +infinity) is re-inserted on '
+                 'every scan, so the search need not terminate' % f.expr_text(extra_entry[0])[:70])
         return s
     s.marker = marker
     ins_region = f.region(ins['i'])
